@@ -10,6 +10,7 @@ import (
 
 	"github.com/BondMachineHQ/BondMachine/pkg/bondmachine"
 	"github.com/BondMachineHQ/BondMachine/pkg/procbuilder"
+	"github.com/BondMachineHQ/BondMachine/pkg/simbox"
 )
 
 // Simulation of one processor of an emitted machine with the real procbuilder.VM, port stimuli
@@ -209,6 +210,81 @@ func SimCP(r *common.Rng, bm *bondmachine.Bondmachine, dom int, steps int, stims
 		res = append(res, x)
 		if x == "X err" || x == "X panic" {
 			break
+		}
+	}
+	return res
+}
+
+// SimBM steps the whole emitted machine with the real bondmachine.VM (all processors, bonds and
+// external ports) under seeded stimuli on the external ports:
+//
+//	BT
+//	BV in=v,.. iv=0/1,.. or=0/1,..          external inputs (value, valid) and external outputs' recv
+//	BX o=v,.. ov=0/1,.. ir=0/1,..           external outputs (value, valid), external inputs' recv after VM.Step
+//	X pc=.. r=.. o=.. ov=.. ir=.. d=..      one line per processor, as in SimCP
+func SimBM(r *common.Rng, bm *bondmachine.Bondmachine, steps int, stims []Stim) (res []string) {
+	defer func() {
+		if rec := recover(); rec != nil {
+			res = append(res, "BX panic")
+		}
+	}()
+	vm := new(bondmachine.VM)
+	vm.Bmach = bm
+	if err := vm.Init(); err != nil {
+		return []string{"BT err"}
+	}
+	if err := vm.Launch_processors(new(simbox.Simbox)); err != nil {
+		return []string{"BT err"}
+	}
+	defer vm.Shutdown()
+	res = append(res, "BT")
+	rsize := int(bm.Rsize)
+	mask := ^uint64(0)
+	if rsize < 64 {
+		mask = (uint64(1) << uint(rsize)) - 1
+	}
+	cur := Stim{In: make([]uint64, bm.Inputs), Iv: make([]bool, bm.Inputs), Or: make([]bool, bm.Outputs)}
+	cnt := steps
+	if stims != nil {
+		cnt = len(stims)
+	}
+	for t := 0; t < cnt; t++ {
+		if stims != nil {
+			cur = stims[t]
+		} else {
+			for i := range cur.In {
+				if r.Chance(1, 2) {
+					v := r.Next() & mask
+					if r.Bool() {
+						v &= 3
+					}
+					cur.In[i] = v
+				}
+				if r.Chance(1, 3) {
+					cur.Iv[i] = !cur.Iv[i]
+				}
+			}
+			for i := range cur.Or {
+				if r.Chance(1, 3) {
+					cur.Or[i] = !cur.Or[i]
+				}
+			}
+		}
+		res = append(res, "B"+cur.Line())
+		for i := 0; i < bm.Inputs && i < len(cur.In); i++ {
+			vm.Inputs_regs[i] = typed(rsize, cur.In[i])
+			vm.InputsValid[i] = cur.Iv[i]
+		}
+		for i := 0; i < bm.Outputs && i < len(cur.Or); i++ {
+			vm.OutputsRecv[i] = cur.Or[i]
+		}
+		if _, err := vm.Step(nil); err != nil {
+			res = append(res, "BX err")
+			break
+		}
+		res = append(res, fmt.Sprintf("BX o=%s ov=%s ir=%s", joinU(vm.Outputs_regs), joinB(vm.OutputsValid), joinB(vm.InputsRecv)))
+		for _, p := range vm.Processors {
+			res = append(res, dumpVM(p))
 		}
 	}
 	return res
